@@ -17,9 +17,16 @@ def main():
         lr = m.get("last_run") or {}
         c = (lr.get("checks") or {}).get(m["property"], {})
         own = ("caught: `%s`" % c.get("first", "").split(" seed=")[0].replace("oracle=", "")) if lr.get("caught") else ("**missed** (rc=%s)" % c.get("rc"))
+        if m.get("expect") == "quiet":
+            own = "quiet, as it must be" if c.get("rc") == 0 else "**FALSE ALARM / error** (rc=%s `%s`)" % (c.get("rc"), c.get("first", "")[:80])
         others = ", ".join("%s %s" % (k, "alarm" if v.get("rc") == 1 else ("quiet" if v.get("rc") == 0 else "rc%s" % v.get("rc")))
                            for k, v in sorted((lr.get("checks") or {}).items()) if k != m["property"])
         rows.append("| `%s` | %s | %s | %s | %s |" % (sid, m["property"], m.get("needs", "").replace("|", "/"), own, others or "-"))
+        if m.get("expect") == "quiet":
+            st = by_prop.setdefault(m["property"] + " benign", [0, 0])
+            st[0] += 1
+            st[1] += 1 if all(v.get("rc") == 0 for v in (lr.get("checks") or {"x": {}}).values()) else 0
+            continue
         st = by_prop.setdefault(m["property"], [0, 0])
         st[0] += 1
         st[1] += 1 if lr.get("caught") else 0
@@ -27,7 +34,7 @@ def main():
     print("|---|---|---|---|---|")
     print("\n".join(rows))
     print()
-    print("Totals: " + ", ".join("%s %d/%d caught" % (k, v[1], v[0]) for k, v in sorted(by_prop.items())))
+    print("Totals: " + ", ".join("%s %d/%d %s" % (k, v[1], v[0], "quiet under all four checks" if k.endswith("benign") else "caught") for k, v in sorted(by_prop.items())))
     mp = os.path.join(V, "mutants_report.json")
     if os.path.exists(mp):
         print()
